@@ -130,6 +130,39 @@ def run_case(spec, ctx):
         elif not np.array_equal(vals2[st != rg.UNDECIDED], vals[st != rg.UNDECIDED]):
             # rows on a leaf boundary may flip between two calls (trimesh re-casts rays at random)
             ctx.violation("in-operator", top, "`points in domain` differs from _contains(points, params)")
+        # the same rows with the columns stored in the opposite variable order (parameters first, factors of a
+        # product swapped): membership goes by variable name, not by column position
+        names_rev = list(pt.join(pr).space.keys())[::-1]
+        if len(names_rev) > 1:
+            rev = Points.from_coordinates({v: torch.tensor(env[v], dtype=torch.float32) for v in names_rev})
+            with ctx.lib("__contains__(reversed variable order)", feature=top):
+                ans3 = D.__contains__(rev)
+            ok3, vals3 = geo.as_bool_rows(ans3, N)
+            if not ok3:
+                ctx.violation("answer-shape", top + "|in-operator-reversed", "`points in domain` answer malformed")
+            elif not np.array_equal(vals3[decided], vals[decided]):
+                j = int(np.where(decided & (vals3 != vals))[0][0])
+                ctx.violation("column-order", top,
+                              f"`points in domain` with the variables stored as {names_rev} differs from the answer for "
+                              f"the same rows stored as {names_rev[::-1]} on {int((decided & (vals3 != vals)).sum())} decided rows, e.g. "
+                              f"{ {kk: np.round(v[j], 6).tolist() for kk, v in env.items()} }")
+        # the domain evaluated with parameter row 0, `D(**row0)`, asked about the rows of that parameter row
+        if k:
+            sel = np.where(np.all([np.all(env[v] == penv[v][0][None, :], axis=1) for v in prows], axis=0))[0]
+            if len(sel):
+                data = {v: torch.tensor(r[:1], dtype=torch.float32).reshape(1, -1) for v, r in prows.items()}
+                with ctx.lib("partial-evaluation", feature=top):
+                    D0 = D(**data)
+                env0 = {kk: v[sel] for kk, v in env.items() if kk not in prows}
+                vals0 = _lib_contains(ctx, D0, env0, "_contains(evaluated domain)", top)
+                if vals0 is not None:
+                    bad0 = ((st[sel] == rg.IN) & ~vals0.astype(bool)) | ((st[sel] == rg.OUT) & vals0.astype(bool))
+                    if bad0.any():
+                        j = int(sel[np.where(bad0)[0][0]])
+                        ctx.violation("membership-evaluated", top,
+                                      f"{int(bad0.sum())} of {int((st[sel] != rg.UNDECIDED).sum())} decided rows of parameter row 0 "
+                                      f"asked of D(**row0): e.g. { {kk: np.round(v[j], 6).tolist() for kk, v in env.items()} } "
+                                      f"library={bool(vals0[np.where(bad0)[0][0]])} reference={'in' if st[j] == rg.IN else 'out'}")
         # joint permutation
         perm = gen.permutation(N)
         envp = {kk: v[perm] for kk, v in env.items()}
